@@ -86,3 +86,8 @@ package liveness
 //@   requires blt != nil && blt.stats != nil && logger != nil
 //@   ensures @C19: true
 //@   checks safety
+// the uncached tester's reporter
+//@ func (s *stats) PrintAndReset(logger *log.Logger)
+//@   requires s != nil && logger != nil
+//@   ensures @C19: true
+//@   checks safety
